@@ -170,7 +170,7 @@ var heavyDuplicate = map[string]bool{
 	"sr25519.SecretKey.KeyPair": true, "x25519.X25519(Basepoint)": true,
 	"history: Sign(zero key) ; Sign(secret key)": true, "history: sr25519 ExpandUniform+Sign(zero) ; (secret)": true,
 	"RistrettoPoint.MulBasepoint(custom table)": true, "RistrettoPoint.MulBasepoint(package table)": true,
-	"EdwardsPoint.MulBasepoint(custom table)": true, "Scalar.BatchInvert": true,
+	"EdwardsPoint.MulBasepoint(custom table)": true,
 }
 
 func buildWindows(sigma int) []window {
